@@ -61,6 +61,12 @@ def scenarios(rng):
         # equations only (no inequality at all)
         f2 = y[0] ** 2 + y[1] ** 2 + 0.5 * y[0] ** -1
         out.append(('sig_equality_only', lambda: ss.sig_constrained_relaxation(f2, [], h, form='dual', p=0, q=1, ell=0), 'sig', f2, [], h))
+        # infimum approached only as exp(x1) -> 0 : vanishing moments at the optimum (ell = 1)
+        f3 = y[0] + y[0] ** -1 + y[1] - y[1] ** 2 + y[1] ** 3
+        g3 = [1 - y[1]]
+        out.append(('sig_vanishing_moments', lambda: ss.sig_constrained_relaxation(f3, g3, [], None, form='dual', p=0, q=1, ell=1), 'sig', f3, g3, []))
+        X3 = ss.infer_domain(f3, g3, [])
+        out.append(('sig_vanishing_moments_X', lambda: ss.sig_relaxation(f3, X3, form='dual', ell=1), 'sig', f3, [], []))
         x = so.standard_poly_monomials(2)
         p = (x[0] - 1) ** 2 + (x[1] + 0.5 * rng.choice([1, 2])) ** 2 + x[0] * x[1]
         pg = [4 - x[0] ** 2 - x[1] ** 2]
@@ -69,6 +75,10 @@ def scenarios(rng):
         XP = sp.infer_domain(p, pg2, [])
         ph = [x[0] * x[1] - 0.5]
         out.append(('poly_equality_only', lambda: sp.poly_constrained_relaxation(p, [], ph, form='dual', p=0, q=1, ell=0), 'poly', p, [], ph))
+        # q-fold products drop single-monomial constraints from the relaxation; the feasibility filter must still use them
+        pq = x[0] * x[1] + 0.0
+        pgq = [x[0], 1 - x[0] ** 2, 1 - x[1] ** 2]
+        out.append(('poly_q2_monomial_constraint', lambda: sp.poly_constrained_relaxation(pq, pgq, [], form='dual', p=0, q=2, ell=0), 'poly', pq, pgq, []))
         out.append(('poly_lifted_domain', lambda: sp.poly_constrained_relaxation(p, pg2, [], XP, form='dual', p=0, q=1, ell=0), 'poly', p, pg2, []))
     return out
 
@@ -112,6 +122,8 @@ def run_one(ctx, name, build, kind, f, gts, eqs, opts):
     Xh = list(con.X.eqs) if getattr(con, 'X', None) is not None else []
     prev = -math.inf
     for s in sols:
+        if not np.all(np.isfinite(np.asarray(s, dtype=float))):
+            return ('%s: a returned "point" has non-finite coordinates: %s' % (name, np.asarray(s, dtype=float).tolist())), None, {'name': name}
         for g in list(gts) + Xg:
             if float(g(s)) < -it:
                 return ('%s: returned point %s violates an inequality by %g (> ineq_tol)' % (name, np.asarray(s).tolist(), -float(g(s)))), None, {'name': name}
